@@ -43,10 +43,13 @@ def trees(draw):
                 # names are unique, except that the main file may pull in a `defs.asm` from both its sub-directory and its
                 # sibling directory (same name in several directories, never both reachable from one include line)
                 child.name = 'f%d.asm' % counter[0]
-                if depth == 0 and child.place in ('sub', 'sibling') and draw(st.booleans()):
-                    child.name = 'defs.asm'
+                # the same written name may be used by includers that live in different directories (each resolves to its own
+                # neighbour); -i files and everything included from below a -i directory keep unique names (write_tree enforces
+                # it) so that no include line ever has two documented candidates by accident
+                if child.place in ('same', 'sub') and draw(st.integers(0, 2)) == 0:   # (a name with `..` is also searched relative to each -i directory)
+                    child.name = draw(st.sampled_from(['body.asm', 'part.asm', 'defs.asm']))
                 child.form = draw(st.integers(0, 4))
-                if ambiguous[0] and child.place == 'same' and not any(e[0] == 'inc' for e in child.entries):
+                if ambiguous[0] and child.place == 'same' and child.name.startswith('f') and not any(e[0] == 'inc' for e in child.entries):
                     ambiguous[0] = False
                     child.alt_lines = [e[1] for e in child.entries] + ['addi x0, x0, 0']
                 node.entries.append(('inc', child))
@@ -76,14 +79,19 @@ def flatten(node, use_alt=False):
     return out
 
 
-def write_tree(node, directory, rootdir, names_used, stats, depth=0):
+def write_tree(node, directory, rootdir, names_used, stats, depth=0, anc_dirs=()):
     """Write node's file content into `directory`; returns the text of the file."""
     text = []
+    under_inc = os.path.commonpath([directory, os.path.join(rootdir, 'inc1')]) == os.path.join(rootdir, 'inc1') or \
+        os.path.commonpath([directory, os.path.join(rootdir, 'inc2')]) == os.path.join(rootdir, 'inc2')
     for e in node.entries:
         if e[0] == 'line':
             text.append(e[1])
             continue
         child = e[1]
+        if under_inc and not child.name.startswith('f'):
+            stats['uniq'] = stats.get('uniq', 0) + 1
+            child.name = 'fu%d.asm' % stats['uniq']
         stats['depth'] = max(stats['depth'], depth + 1)
         if child.place == 'same':
             cdir, written = directory, child.name
@@ -108,7 +116,20 @@ def write_tree(node, directory, rootdir, names_used, stats, depth=0):
             path = os.path.join(cdir, base)
             written = written.rsplit('/', 1)[0] + '/' + base if '/' in written else base
         names_used.add(path)
-        body = write_tree(child, cdir, rootdir, names_used, stats, depth + 1)
+        # decoys: a file with the same written path below every directory higher up the include chain - the documentation searches
+        # only next to the including file and in the -i directories, so these must never be picked
+        for adir in anc_dirs:
+            dpath = os.path.normpath(os.path.join(adir, written))
+            inc_roots = (os.path.join(rootdir, 'inc1'), os.path.join(rootdir, 'inc2'))
+            reachable = [os.path.normpath(os.path.join(x, written)) for x in inc_roots + (directory,)]
+            if adir == directory or adir in inc_roots or dpath in names_used or dpath in reachable or not dpath.startswith(rootdir + os.sep):
+                continue
+            os.makedirs(os.path.dirname(dpath), exist_ok=True)
+            with open(dpath, 'w', encoding='utf-8') as f:
+                f.write('error decoy from a directory further up the include chain was included\n')
+            names_used.add(dpath)
+            stats['ancestor_decoys'] = stats.get('ancestor_decoys', 0) + 1
+        body = write_tree(child, cdir, rootdir, names_used, stats, depth + 1, anc_dirs + (directory,))
         with open(path, 'w', encoding='utf-8') as f:
             f.write(body)
         if child.alt_lines is not None:
@@ -146,7 +167,7 @@ def run_cli(a, argv, cwd):
 def judge(case, res):
     a = env.load_asm()
     res.evaluations += 1
-    node = case['root']
+    node = _load(_dump(case['root']))   # write_tree renames / drops alternatives in place: work on a copy
     with env.scratch_dir('bbv-c14-') as root:
         srcdir = os.path.join(root, *DEPTH_DIRS)
         os.makedirs(srcdir)
@@ -217,6 +238,10 @@ def judge(case, res):
     res.count('depth:%d' % stats['depth'])
     if stats['ambiguous']:
         res.count('ambiguous_name')
+    if stats.get('ancestor_decoys'):
+        res.count('trees_with_ancestor_decoys')
+    if len(set(stats['names'])) < len(stats['names']):
+        res.count('trees_with_same_name_in_several_directories')
     if got[0] == 'ok' and (stats['depth'] >= 2 or stats['incdir'] or case['cwd'] == 'elsewhere_decoys'):
         res.nt(env.chash((main_text, _dump(node), case['cwd'], comp)))
     if res.evaluations % 37 == 1:
